@@ -542,7 +542,16 @@ func (cs *connState) handleRequest() bool {
 	}
 
 	// Handle the message.
-	r := cs.handle(m)
+	//
+	// A Tflush that names its own tag has nothing to wait for: the only
+	// request using that tag is the flush itself, and waiting for its
+	// completion would never end. Answer it directly.
+	var r message
+	if f, ok := m.(*tflush); ok && f.OldTag == tag {
+		r = &rflush{}
+	} else {
+		r = cs.handle(m)
+	}
 
 	// Clear the tag before sending. That's because as soon as this
 	// hits the wire, the client can legally send another message
